@@ -352,6 +352,7 @@ func c19(r *core.Run) {
 	byteWrapLint(r, "C19.L2", "pkg/shed", "pkg/shed/leveldb")
 	c19MustStage(r, funcs)
 	c19SkipStart(r)
+	c19StoredWins(r)
 	c19PrefixAlias(r, funcs)
 	c19ReverseBound(r)
 	c19Iteration(r)
